@@ -471,6 +471,8 @@ def sampled_cases(ctx, items: list, mesh: dict) -> None:
         opt = {}
         if rng.random() < 0.25 and enc['fill'] == 'attr':
             opt['netcdf'] = True
+        elif rng.random() < 0.3 and enc['fill'] != 'nan':
+            opt['int_dtype'] = rng.choice(['int64', 'uint32'])
         if rng.random() < 0.3:
             recipe['names'] = {'face_dim': 'nface', 'node_dim': 'nnode', 'edge_dim': 'nedge',
                                'max_dim': 'nmax', 'two_dim': rng.choice(['Two', 'two', 'nv'])}
@@ -494,7 +496,7 @@ def run(ctx) -> None:
     items: list = []
     ctx.c10_flagged = []
     start_index_cases(ctx, items)
-    pool = M.mesh_pool(rng, ctx.tier, ctx.budget(3, 12))
+    pool = M.mesh_pool(rng, ctx.tier, ctx.budget(5, 30))
     specials = [m for m in pool if not m['name'].startswith('lattice')]
     lattices = [m for m in pool if m['name'].startswith('lattice')]
     # smallest meshes first, so that the first failing input of any kind is a small one
@@ -515,7 +517,7 @@ def run(ctx) -> None:
     # full encoding product: the uniform mesh (the only one that needs no fill value), one mixed
     # special mesh, the random lattices
     counter = [0]
-    for mesh in [m for m in specials if m['name'] in ('uniform-quads', 'octagon')] + lattices:
+    for mesh in [m for m in specials if m['name'] in ('uniform-quads', 'octagon', 'tetrahedron')] + lattices:
         product_cases(ctx, items, mesh, counter)
     ctx.exhaustive = True
     for mesh in lattices:
